@@ -52,8 +52,8 @@ def tok_value_eq(e, o, loose=True):
     if e.k in ("num", "dim", "pct"):
         if e.k == "dim" and (e.unit or "") != o.get("unit"):
             return False
-        got = as_float(o.get("v"))
-        return num_close(got, e.num, 1e-5) or num_close(got, sig6(e.num), 1e-6)
+        # the numeric value is C10's business: a wrong number must not look like a structural mismatch
+        return True
     return True
 
 
@@ -275,7 +275,8 @@ def judge_case(pid, run, case, res, known):
                 if exact_ok:
                     continue
                 # bug-compatible re-evaluation: the 6-significant-digit printer (recorded finding)
-                if "six-significant-digits" in known and num_close(got, sig6(want), 1e-6):
+                # (it concerns non-integers and rpx results only: integers are printed exactly)
+                if kindname != "integer" and "six-significant-digits" in known and num_close(got, sig6(want), 1e-6):
                     run.known("six-significant-digits", known["six-significant-digits"])
                     continue
                 src = e.src.text if e.src is not None else "?"
